@@ -103,18 +103,21 @@ def purity(sf, st, backend):
     return float(np.real(np.trace(mat @ mat))) / tr ** 2, tr
 
 
-def check_physical(ctx, sf, spec, backend, rp):
+def check_physical(ctx, sf, spec, backend, rp, cutoff=8):
     try:
-        return _check_physical(ctx, sf, spec, backend, rp)
+        return _check_physical(ctx, sf, spec, backend, rp, cutoff)
+    except ZeroDivisionError:
+        ctx.tally("skipped:zero-probability")
+        return None
     except Exception as e:  # noqa: BLE001  (an exception while inspecting a returned state is a failing input)
         ctx.fail(f"evaluation-raises:{backend}:{type(e).__name__}", f"inspecting the state returned by {backend} raised "
                  f"{type(e).__name__}: {e}", rp)
         return None
 
 
-def _check_physical(ctx, sf, spec, backend, rp):
+def _check_physical(ctx, sf, spec, backend, rp, cutoff=8):
     try:
-        st = run_backend(sf, spec, backend)
+        st = run_backend(sf, spec, backend, cutoff)
     except NotImplementedError:
         ctx.tally("skipped:not-implemented")
         return None
@@ -210,6 +213,41 @@ def run(ctx, sf):
                     continue
                 ctx.count(f"physical:{backend}:n={n}", dict(s=fock_spec, b=backend), nt)
                 check_physical(ctx, sf, fock_spec, backend, dict(kind="physical", spec=fock_spec, backend=backend))
+    # mode deletion / creation (Fock: the pure -> mixed conversion of `dealloc` needs >= 4 modes to show every axis order)
+    for it in range(ctx.n(14, 150)):
+        n = rng.choice([3, 4, 4])
+        spec = dict(n=n, ops=sim.correlated_prefix(rng, n)[: 2 * n + 2])
+        spec["ops"] = [o for o in spec["ops"] if o["cls"] != "LossChannel"] if it % 2 else spec["ops"]
+        spec = progs.with_del_new(rng, spec, p_del=1.0, p_new=0.4)
+        spec["ops"] = [o for o in spec["ops"] if o["cls"] != "MeasureFock"]
+        for backend in ("gaussian", "bosonic", "fock-pure"):
+            ctx.count(f"physical-del:{backend}:n={n}", dict(s=spec, b=backend), True, sample=dict(spec=spec, backend=backend))
+            rp = dict(kind="physical", spec=spec, backend=backend, cutoff=5)
+            check_physical(ctx, sf, spec, backend, rp, cutoff=5)
+    # conditional states of post-selected measurements must be physical too
+    for it in range(ctx.n(24, 240)):
+        n = rng.choice([2, 3])
+        ops_ = sim.correlated_prefix(rng, n)
+        m = rng.randrange(n)
+        kind = ("homodyne", "heterodyne", "fock")[it % 3]
+        if kind == "homodyne":
+            meas = dict(cls="MeasureHomodyne", regs=[m], pars=[sim.angle(rng)], select=round(rng.uniform(-0.6, 0.6), 3))
+            backends = ("gaussian", "bosonic", "fock-pure")
+        elif kind == "heterodyne":
+            meas = dict(cls="MeasureHeterodyne", regs=[m], pars=[], select=complex(round(rng.uniform(-0.4, 0.4), 3),
+                                                                                   round(rng.uniform(-0.4, 0.4), 3)))
+            backends = ("gaussian", "bosonic")
+        else:
+            meas = dict(cls="MeasureFock", regs=[m], pars=[], select=[rng.choice([0, 0, 1])])
+            backends = ("fock-pure", "fock-mixed")
+        spec = dict(n=n, ops=ops_ + [meas] + [sim.rand_gaussian_op(rng, n, allow_prep=False, thermal_loss=False)
+                                             for _ in range(rng.randint(0, 2))])
+        for backend in backends:
+            ctx.count(f"physical-conditional:{kind}:{backend}", dict(s=spec, b=backend), True)
+            try:
+                check_physical(ctx, sf, spec, backend, dict(kind="physical", spec=spec, backend=backend))
+            except ZeroDivisionError:
+                ctx.tally("skipped:zero-probability")
     for it in range(ctx.n(10, 100)):
         spec = bosonic_nongauss_spec(rng, rng.choice([1, 2]))
         ctx.count("physical:bosonic-nongaussian", spec, True)
@@ -243,7 +281,7 @@ def replay(ctx, rp):
     n0 = len(ctx.failures)
     sf.hbar = 2
     if rp["kind"] == "physical":
-        check_physical(ctx, sf, rp["spec"], rp["backend"], rp)
+        check_physical(ctx, sf, rp["spec"], rp["backend"], rp, rp.get("cutoff", 8))
     else:
         check_conservation(ctx, sf, rp["prefix"], rp["op"], rp["n"], rp["backend"], rp["law"])
     return len(ctx.failures) > n0
